@@ -131,12 +131,6 @@ theorem dtor_own {base : Nat → Nat} {O : Nat → Prop} {hp : Heap} (self : NTT
 
 /-! ### computeR -/
 
-theorem computeR_loop1_same (self : NTT_Goldilocks) (dp : BitVec 64) (i : Nat) (hp : Heap) :
-    OInv (Heap.Same hp) (NTT_computeR_loop1 self dp i hp) := by
-  unfold NTT_computeR_loop1
-  repeat heap_step
-macro_rules | `(tactic| same_lemmas) => `(tactic| apply computeR_loop1_same)
-
 /-- `computeR`: two new blocks of N words, stored in `r`, `r_`; nothing else changes shape -/
 def ComputeRPost (hp : Heap) (self : NTT_Goldilocks) (N : Int) (r : Heap × NTT_Goldilocks) : Prop :=
   r.2 = { self with r := (hp.alloc (I32.toU64 N).toNat).2,
@@ -154,16 +148,6 @@ theorem computeR_shape (fuel : Nat) (hp : Heap) (self : NTT_Goldilocks) (N : Int
     exact ⟨rfl, by assumption⟩
 
 /-! ### constructor -/
-
-theorem ctor_loop3_same (self : NTT_Goldilocks) (i : Nat) (hp : Heap) : OInv (Heap.Same hp) (NTT_ctor_loop3 self i hp) := by
-  unfold NTT_ctor_loop3
-  repeat heap_step
-macro_rules | `(tactic| same_lemmas) => `(tactic| apply ctor_loop3_same)
-
-theorem ctor_loop4_same (self : NTT_Goldilocks) (h0 : Heap) (st : Heap × BitVec 64) (h : Heap.Same h0 st.1) :
-    OInv (fun bs => Heap.Same h0 bs.2.1) (NTT_ctor_loop4 self st) := by
-  unfold NTT_ctor_loop4
-  repeat heap_step
 
 theorem bv32_succ_ne_zero (s d : BitVec 32) (h : s < d) : s + 1#32 ≠ 0#32 := by
   intro e
@@ -210,7 +194,10 @@ theorem ctor_shape (fuel : Nat) (hp : Heap) (self : NTT_Goldilocks) (m : BitVec 
         oinv_bind (fun (y : Heap × BitVec 64) => Heap.Same ((hp.alloc ((nRoots * 8#64).toNat / 8)).1.alloc ((BitVec.setWidth 64 (st4.2.s + 1#32) * 8#64).toNat / 8)).1 y.1)
         · heap_step
           · assumption
-          · intro s hs; exact ctor_loop4_same _ _ s hs
+          · -- the body of the `powTwoInv` loop, whatever its parameter list
+            intro s hs
+            unfold_loops
+            repeat heap_step
         · heap_steps
           refine Or.inr ⟨?_, hst4, _, _, rfl, rfl, by assumption⟩
           intro e0; subst e0; exact absurd rfl ‹¬(0#64 == 0#64) = true›
@@ -272,6 +259,13 @@ def CacheOK (self : NTT_Goldilocks) : Prop := self.r = Ptr.null → self.r_ = Pt
 
 theorem ptr_ne_null_of_blk {p : Ptr} (h : p.blk ≠ 0) : p ≠ Ptr.null := by
   intro e; rw [e] at h; exact h rfl
+
+/-- `computeR` overwrites `r`, `r_` before it reads them: their values at the call do not matter (the source may or may not
+    reset them to NULL after `delete[]`) -/
+theorem computeR_irrel (fuel : Nat) (X : Heap) (self : NTT_Goldilocks) (a b : Ptr) (N : Int) :
+    NTT_computeR fuel X { self with r := a, r_ := b } N = NTT_computeR fuel X self N := by
+  unfold NTT_computeR
+  rfl
 
 /-- the cache refresh of `extendPol`: `if (r == NULL || r_N != N) { if (r != NULL) { delete[] r; delete[] r_; } computeR(N); }` -/
 theorem refresh_own {base : Nat → Nat} {O2 : Nat → Prop} (fuel : Nat) (hp2 : Heap) (self : NTT_Goldilocks) (N : BitVec 64)
@@ -386,7 +380,14 @@ theorem extendPol_own {base : Nat → Nat} {O : Nat → Prop} (fuel : Nat) (hp :
     oinv_bind (fun (j : Heap × NTT_Goldilocks) =>
       Fr base (fun b => (O b ∨ Tables ext.2 b ∨ ((buffer == Ptr.null) = true ∧ b = d.1.blk ∧ b ≠ 0)) ∨ Cache j.2 b) j.1 ∧ CacheOK j.2 ∧
         j.2.s = self.s ∧ j.2.roots = self.roots ∧ j.2.powTwoInv = self.powTwoInv)
-    · exact refresh_own fuel d.2 self N h2 hc
+    · -- the cache refresh, HOWEVER the source writes it (one nested `if`, two sequential `if`s with the pointers reset to
+      -- NULL, …): evaluated in the four cases `r == NULL` × `r_N == N` it is the canonical text of `refresh_own`
+      have hcan := refresh_own fuel d.2 self N h2 hc
+      cases hr0 : (self.r == Ptr.null) <;> cases hn0 : (self.r_N == N) <;>
+        simp only [hr0, hn0, bne, Bool.not_true, Bool.not_false, Bool.true_or, Bool.false_or, Bool.or_true, Bool.or_false,
+          Bool.true_and, Bool.false_and, Bool.and_true, Bool.and_false, if_true, if_false, Bool.false_eq_true, computeR_irrel,
+          beq_self_eq_true] at hcan ⊢ <;>
+        exact hcan
     · rename_i j hj
       obtain ⟨f, hcj, e3, e4, e5⟩ := hj
       have hpos := f.pos
